@@ -5,8 +5,15 @@ cd "$(dirname "$0")"
 export GOFLAGS=-mod=mod GOPROXY=off GOSUMDB=off GOTOOLCHAIN=local
 mkdir -p bin evidence
 go build -o bin/vdriver ./cmd/vdriver
-# warm the cache: compile every props package (plain), race ones are compiled by their first check
+# warm the cache: compile every props package once (errors are not fatal here: every check
+# rebuilds what it needs and reports build problems itself)
 for d in props/*/; do
   go test -c -vet=off -o /dev/null "./$d" >/dev/null 2>&1 || true
 done
+# the race-enabled runtime and the packages of the -race checks
+for d in props/c14 props/c16; do
+  go test -c -race -vet=off -o /dev/null "./$d" >/dev/null 2>&1 || true
+done
+# C13 is built with an overlay by its check; one throw-away build warms its -race dependencies
+./check C13 quick >/dev/null 2>&1 || true
 echo setup done
